@@ -112,6 +112,7 @@ type State struct {
 	Aux     map[auxKey]int
 	Globals map[*ssa.Global]int
 	Panic   *PanicInfo
+	PanicHold int // while > 0 and the stack is at least this deep, a deferred call is running during a panic: execute it, do not unwind
 	Status  Status
 	Why     string
 	Steps   int
